@@ -303,11 +303,14 @@ OpsOf(St, m) ==
     \cup {[op |-> "new_spec", m |-> m, sp |-> sp, n |-> n, loc |-> loc, v |-> v] :
         sp \in Parents(St, m), n \in Names, loc \in ModLocs, v \in FreshM(St)}
     \cup {[op |-> "assign", m |-> m, sp |-> sp, n |-> n, v |-> v] :
-        sp \in Parents(St, m), n \in Names, v \in {0} \cup PVals \cup (MVals \cap LiveVals(St))}
+        sp \in Parents(St, m), n \in Names,
+        \* (a module is only bound again where it has its spec: a model holding a
+        \*  module without a spec cannot be saved, which is not C18's subject)
+        v \in {0} \cup PVals \cup (MVals \cap {x.v : x \in SpecsOf(St, m)})}
     \cup {[op |-> "del_ref", m |-> m, sp |-> sp, n |-> n] : sp \in Parents(St, m), n \in Names}
     \cup {[op |-> "update", m |-> m, old |-> o, new |-> w] : o \in PVals, w \in PVals}
     \cup {[op |-> "update", m |-> m, old |-> o, new |-> w] :
-        o \in {t.v : t \in St.v2r[m]} \cap MVals, w \in FreshM(St)}
+        o \in {x.v : x \in SpecsOf(St, m)} \cap MVals, w \in FreshM(St)}
     \cup (IF St.base[m] THEN {[op |-> "remove_base", m |-> m]}
           ELSE IF SpaceNames \subseteq St.sp[m] THEN {[op |-> "add_base", m |-> m]} ELSE {})
     \cup (IF WithDelSpace THEN {[op |-> "del_space", m |-> m, sp |-> sp] : sp \in St.sp[m]} ELSE {})
@@ -329,7 +332,7 @@ Init ==
 Do(op) ==
     \E r \in {Step(S, op)} :
     IF r.res = "rejected" /\ r.S = S
-    THEN /\ S' = S /\ P' = P /\ lab' = {} /\ hist' = Append(hist, op)
+    THEN /\ S' = S /\ P' = P /\ lab' = {} /\ hist' = Append(hist, op @@ [res |-> r.res])
     ELSE
     \E e \in {IF op.op = "write_read" THEN (op @@ [res |-> r.res]) @@ WriteReadInfo(S, op.m)
                ELSE op @@ [res |-> r.res]} :
@@ -338,9 +341,13 @@ Do(op) ==
         /\ S' = r.S
         /\ P' = j.P
         /\ lab' = j.labels
-        /\ hist' = Append(hist, op)
+        /\ hist' = Append(hist, op @@ [res |-> r.res])
 
-Next == Len(hist) < MaxOps /\ \E op \in Ops(S) : Do(op)
+\* spec -> code: the history by which TLC first reached a state is printed when
+\* the state is expanded, i.e. once per distinct abstract state
+Emit == Dump => PrintT(<<"MBT", ToJson([h |-> hist, lab |-> SetToSeq(lab)])>>)
+
+Next == Emit /\ Len(hist) < MaxOps /\ \E op \in Ops(S) : Do(op)
 
 Spec == Init /\ [][Next]_vars
 
@@ -363,10 +370,7 @@ View  == <<S, P, lab, Len(hist)>>
 \* complete (unbounded) search: the abstract state alone
 ViewU == <<S, P, lab>>
 
-\* spec -> code: one history per distinct abstract state (the one TLC reached
-\* it by first), printed when the state is found
-DumpHist == (Dump /\ hist # <<>>) => PrintT(<<"MBT", ToJson(hist)>>)
-\* coverage of the model itself: which operation kinds were accepted/rejected
-\* and which KF labels the model produces
-Bound == DumpHist /\ (ExploreTainted \/ P.taint = {})
+\* states reached through a known-finding situation are judged (invariants) and
+\* printed for replay, but not expanded (unless ExploreTainted)
+Bound == ExploreTainted \/ P.taint = {} \/ (Emit /\ FALSE)
 =============================================================================
